@@ -56,8 +56,9 @@ type G struct {
 	stalls   []Stall
 	Log      []Event
 	Yields   int64
-	done     int32 // atomic: set by the goroutine when it returns
-	lib      bool  // started by library code through Go()
+	done     int32          // atomic: set by the goroutine when it returns
+	last     unsafe.Pointer // atomic: *string, the site of the goroutine's latest yield (read only after a hang)
+	lib      bool           // started by library code through Go()
 }
 
 // Stall makes the goroutines whose name contains Match sleep Quanta extra quanta at their AtYield-th yield.
@@ -82,15 +83,17 @@ type Crash struct {
 
 // Sim is one simulated run.
 type Sim struct {
-	Seed        uint64
-	Flat        bool     // every delay is one quantum, selects try cases in source order, map keys sorted
-	FlatG       []string // goroutines (substring match) that are flattened individually (used by the shrinker)
-	DefaultMean int64    // mean delay in quanta (default 4)
-	Means       []Mean   // first match wins
-	Stalls      []Stall
-	MaxYields   int64 // per goroutine; exceeding it aborts the run (livelock budget)
-	NoLog       bool
-	OnAbort     func(reason string)
+	Seed         uint64
+	Flat         bool     // every delay is one quantum, selects try cases in source order, map keys sorted
+	FlatG        []string // goroutines (substring match) that are flattened individually (used by the shrinker)
+	DefaultMean  int64    // mean delay in quanta (default 4)
+	Means        []Mean   // first match wins
+	SpeedClasses []int64  // goroutines no Mean matches get SpeedClasses[hash(SpeedSeed, name) % len] as their mean
+	SpeedSeed    uint64
+	Stalls       []Stall
+	MaxYields    int64 // per goroutine; exceeding it aborts the run (livelock budget)
+	NoLog        bool
+	OnAbort      func(reason string)
 
 	mu      sync.Mutex
 	all     []*G
@@ -199,6 +202,9 @@ func (s *Sim) newG(name string, lib bool) *G {
 		}
 	}
 	g.mean = s.DefaultMean
+	if len(s.SpeedClasses) > 0 {
+		g.mean = s.SpeedClasses[hash(s.SpeedSeed, name)%uint64(len(s.SpeedClasses))]
+	}
 	for _, m := range s.Means {
 		if strings.Contains(name, m.Match) {
 			g.mean = m.Mean
@@ -277,7 +283,7 @@ func Go(site string, fn func()) {
 	}()
 }
 
-// Abort ends the run early: the harness's OnAbort (which cancels the run's root context) is called once.
+// Abort ends the run early: library goroutines exit at their next yield; OnAbort is called once.
 func (s *Sim) Abort(reason string) {
 	if atomic.CompareAndSwapInt32(&s.aborted, 0, 1) {
 		s.mu.Lock()
@@ -314,6 +320,24 @@ func (s *Sim) LiveLib() []string {
 	for _, g := range s.all {
 		if g.lib && atomic.LoadInt32(&g.done) == 0 {
 			out = append(out, g.Name)
+		}
+	}
+	return out
+}
+
+// Blocked lists the goroutines that have not returned with the site of their latest yield.
+// It reads only per-goroutine atomics, so it is safe after a hang.
+func (s *Sim) Blocked() []string {
+	s.mu.Lock()
+	defer s.mu.Unlock()
+	var out []string
+	for _, g := range s.all {
+		if atomic.LoadInt32(&g.done) == 0 {
+			site := "?"
+			if p := (*string)(atomic.LoadPointer(&g.last)); p != nil {
+				site = *p
+			}
+			out = append(out, g.Name+"@"+site)
 		}
 	}
 	return out
@@ -371,6 +395,11 @@ func yield(site string, l, c int) {
 	if g == nil {
 		return
 	}
+	if g.lib && atomic.LoadInt32(&s.aborted) != 0 {
+		// the run was aborted (a library goroutine panicked, i.e. the process would have died, or the
+		// step budget ran out): library goroutines unwind at their next delay point, running their defers
+		runtime.Goexit()
+	}
 	g.Yields++
 	if s.MaxYields > 0 && g.Yields > s.MaxYields {
 		s.Abort("budget")
@@ -384,6 +413,8 @@ func yield(site string, l, c int) {
 			d += st.Quanta
 		}
 	}
+	ls := site
+	atomic.StorePointer(&g.last, unsafe.Pointer(&ls))
 	now := time.Now().UnixNano()
 	wake := ((now+d*Q)/Q+1)*Q + g.residue
 	if !s.NoLog {
